@@ -476,6 +476,7 @@ class Generated:
         self.items = []    # per extracted item: dict(source, selector, sha256, lines, rules)
         self.functions = []  # functions under contract
         self.trusted = []  # trusted markers found
+        self.finding_tags = set()
 
     def add(self, text, origin):
         for k, ln in enumerate(text.split("\n")):
@@ -797,9 +798,30 @@ def generate(template_path, variant="main"):
     return gen
 
 
+TAG_RE = re.compile(r"//\s*@(finding|carveout)\s+(F\d+)\s*$")
+
+
+def _variant_filter(lines, variant, gen):
+    """`... // @finding Fx` lines exist only in the `findings` variant (clauses expected to fail: the
+    finding itself); `... // @carveout Fx` lines exist only in the other variants (the exclusion under
+    which everything else is proved)."""
+    out = []
+    for ln in lines:
+        mt = TAG_RE.search(ln)
+        if mt:
+            gen.finding_tags.add(mt.group(2))
+            keep = (variant == "findings") == (mt.group(1) == "finding")
+            if not keep:
+                continue
+            ln = ln[:mt.start()].rstrip()
+        out.append(ln)
+    return out
+
+
 def _process(template_path, gen, variant):
     rel_t = os.path.relpath(template_path, VERIF)
     lines = open(template_path, encoding="utf-8").read().split("\n")
+    lines = _variant_filter(lines, variant, gen)
     i = 0
     while i < len(lines):
         ln = lines[i]
